@@ -107,20 +107,29 @@ package engine
 // the configured menu separator is in force from the first render on (C07)
 //@   ensures[C07] @separator en.cfg.MenuSeparator != "" ==> en.vm.mn.sep == en.cfg.MenuSeparator
 
-// First-time setup from the configuration and the persister (assumed as a
-// whole: cbor, the storage backends and language lookup are outside reach).
-// What it must establish for the verified part is stated here.
+// First-time setup from the configuration and the persister. preparePersist and
+// ensurePersist are verified; what they take on trust is stated as premises
+// (client-supplied objects are well-formed) and in the assumed contracts of the
+// two cbor wrappers in package persist.
 //@ pred beforeVm(en) = en != nil && en.st != nil && state.flagsOk(en.st) && en.rs != nil && vm.memOk(en.ca) && vm.memWf(en.ca)
 //@   && count(flagcount) == int(en.st.BitSize) && (en.st.input == nil || !sameBacking(en.st.input, en.st.Flags))
 //@   && vm.levels(en.ca) == vm.depth(en.st) + 1 && int(vm.cac(en.ca).CacheSize) < 2147483648 && !sameBacking(en.st.Code, en.st.Flags)
 //@   && allocated(en.st) && allocated(en.st.Flags) && vm.depth(en.st) <= state.MaxLevel
 //@ func (*DefaultEngine).preparePersist
-//@   assumed
+//@   serves C07
 //@   requires en != nil
+// a state or cache object supplied by the client (WithState / WithMemory) or attached to the persister is well-formed
+//@   premise en.st != nil ==> state.flagsOk(en.st) && allocated(en.st)
+//@   premise en.ca != nil ==> vm.memOk(en.ca) && vm.memWf(en.ca)
+//@   premise en.pe != nil && en.pe.State != nil ==> state.flagsOk(en.pe.State) && allocated(en.pe.State)
+//@   premise en.pe != nil && en.pe.Memory != nil ==> cache.shape(en.pe.Memory) && cache.unique(en.pe.Memory) && cache.sized(en.pe.Memory)
 //@   modifies en.st, en.ca
-// a state object supplied by the client or the persister is a well-formed State
-//@   ensures en.st != nil ==> state.flagsOk(en.st) && allocated(en.st)
-//@   ensures en.ca != nil ==> vm.memOk(en.ca) && vm.memWf(en.ca)
+//@   ensures @state en.st != nil ==> state.flagsOk(en.st) && allocated(en.st)
+//@   ensures @mem en.ca != nil ==> vm.memOk(en.ca) && vm.memWf(en.ca)
+// the engine takes over what the persister holds, and refuses two sources for the same thing (C07)
+//@   ensures[C07] @taken result == nil && en.pe != nil && en.pe.State != nil ==> en.st == en.pe.State
+//@   ensures[C07] @takenmem result == nil && en.pe != nil && en.pe.Memory != nil ==> typeis[*cache.Cache](en.ca) && vm.cac(en.ca) == en.pe.Memory
+//@   ensures[C07] @both en.pe != nil && en.pe.State != nil && old(en.st) != nil ==> result != nil
 
 // ensureState: a new State with the configured flag count, or the supplied one; the configured
 // language is selected (and LANG raised, so that the VM puts it into the context) when none is set (C18)
@@ -145,11 +154,23 @@ package engine
 // "stays blocked" refers to on the first request of a fresh engine (C20).
 //@ gstate loadedTerm(e int) bool
 //@ func (*DefaultEngine).ensurePersist
-//@   assumed
-//@   requires en != nil
-//@   modifies en.st, en.ca, en.pe, loadedTerm[refOf(en)]
-//@   ensures result == nil ==> beforeVm(en)
-//@   ensures result == nil ==> loadedTerm(refOf(en)) == state.flag(en.st, state.FLAG_TERMINATE)
+//@   serves C07, C08, C12, C20
+//@   requires en != nil && en.rs != nil && en.st != nil
+// the session the engine was given directly (WithState / WithMemory, or new ones) is well-formed
+//@   premise vm.memOk(en.ca) && persist.sessionWf(en.st, vm.cac(en.ca))
+//@   premise en.pe != nil ==> en.pe.db != nil
+//@   modifies everything except f:engine.Config., f:engine.DefaultEngine.rs, f:engine.DefaultEngine.first, f:engine.DefaultEngine.initd, f:engine.DefaultEngine.dbg, f:engine.DefaultEngine.regexCount, f:engine.DefaultEngine.vm, f:engine.DefaultEngine.execd, f:engine.DefaultEngine.exit, f:engine.DefaultEngine.exiting, f:vm., f:render., f:resource., count(dbputs), count(dbgets), count(stfault)
+//@   ghostset loadedTerm(refOf(en)) = state.flag(en.st, state.FLAG_TERMINATE)
+// the session is loaded and, when it does not exist yet, created under this engine's session id;
+// nothing is written unless the load failed (C07, C12)
+//@   callsite (*persist.Persister).Load assert[C07,C12] @session arg1 == en.cfg.SessionId && arg0.State == en.st && arg0.Memory == vm.cac(en.ca)
+//@   callsite (*persist.Persister).Save assert[C07,C12] @session arg1 == en.cfg.SessionId && count(stfault) > old(count(stfault))
+//@   ensures @ready result == nil ==> beforeVm(en)
+//@   ensures @loaded result == nil ==> loadedTerm(refOf(en)) == state.flag(en.st, state.FLAG_TERMINATE)
+// the persister ends up holding the very state and cache the engine runs on: what Finish saves is what was executed (C07)
+//@   ensures[C07] @attached result == nil && en.pe != nil ==> en.pe == old(en.pe) && en.pe.State == en.st && en.pe.Memory == vm.cac(en.ca)
+// only a failed first load (the session may be new) is tolerated: a failed save or a failed second load is reported (C12)
+//@   ensures[C12] @reports en.pe != nil && count(stfault) > old(count(stfault)) + 1 ==> result != nil
 
 // The optional entry function runs in a throw-away VM that shares the
 // session's state and cache. While TERMINATE is set the entry function is not
@@ -176,7 +197,7 @@ package engine
 //@ func (*DefaultEngine).empty
 //@   requires engOk(en)
 //@   requires[C08] vm.lockstep(en.vm)
-//@   modifies everything except f:engine.Config., f:engine.DefaultEngine.rs, f:engine.DefaultEngine.first, f:engine.DefaultEngine.initd, f:engine.DefaultEngine.pe, f:engine.DefaultEngine.dbg, f:engine.DefaultEngine.regexCount, f:render.Sizer.outputSize, f:state.State.BitSize, f:state.State.Flags, f:engine.DefaultEngine.st, f:engine.DefaultEngine.ca, f:engine.DefaultEngine.vm, count(extcalls), count(codegets), count(written)
+//@   modifies everything except f:engine.Config., f:engine.DefaultEngine.rs, f:engine.DefaultEngine.first, f:engine.DefaultEngine.initd, f:engine.DefaultEngine.pe, f:engine.DefaultEngine.dbg, f:engine.DefaultEngine.regexCount, f:render.Sizer.outputSize, f:engine.DefaultEngine.st, f:engine.DefaultEngine.ca, f:engine.DefaultEngine.vm, count(extcalls), count(codegets), count(written), count(dbputs), count(dbgets), count(stfault)
 //@   ensures @eng engOk(en) && sameEngine(en)
 //@   ensures[C08] @lockstep !old(en.exiting) ==> vm.lockstep(en.vm)
 //@   ensures[C17] @clean old(!fl(en, state.FLAG_DIRTY) && !en.exiting && len(en.exit) == 0 && en.execd) ==> result == nil && vm.untouched(en.vm)
@@ -194,7 +215,7 @@ package engine
 //@   serves C07, C17
 //@   requires en != nil && en.rs != nil && (en.initd || en.execd ==> engOk(en))
 //@   requires[C08] en.initd || en.execd ==> vm.lockstep(en.vm) && !en.exiting
-//@   modifies everything except f:engine.Config., f:engine.DefaultEngine.rs, f:engine.DefaultEngine.first, f:engine.DefaultEngine.initd, f:engine.DefaultEngine.dbg, f:engine.DefaultEngine.regexCount, f:render.Sizer.outputSize, f:state.State.BitSize, f:state.State.Flags, count(extcalls), count(codegets), count(written)
+//@   modifies everything except f:engine.Config., f:engine.DefaultEngine.rs, f:engine.DefaultEngine.first, f:engine.DefaultEngine.initd, f:engine.DefaultEngine.dbg, f:engine.DefaultEngine.regexCount, f:render.Sizer.outputSize, count(extcalls), count(codegets), count(written), count(dbputs), count(dbgets), count(stfault)
 //@   ensures @nocalls !old(en.execd) ==> count(extcalls) == old(count(extcalls)) && count(codegets) == old(count(codegets)) && count(written) == old(count(written))
 //@   ensures @ready result == nil ==> engOk(en)
 //@   ensures @alloc !old(en.initd) && result == nil ==> allocated(en.st) && allocated(en.st.Flags)
@@ -214,7 +235,7 @@ package engine
 // the request's input buffer is not the session's flag array (the state may only exist after setup)
 //@   callsite (*state.State).SetInput assume @inputbuf !sameBacking(arg1, en.st.Flags)
 //@   requires[C08] en.initd ==> vm.lockstep(en.vm) && !en.exiting
-//@   modifies everything except f:engine.Config., f:engine.DefaultEngine.rs, f:engine.DefaultEngine.first, f:engine.DefaultEngine.dbg, f:engine.DefaultEngine.regexCount, f:state.State.BitSize, f:state.State.Flags, f:render.Sizer.outputSize, count(extcalls), count(codegets), count(written)
+//@   modifies everything except f:engine.Config., f:engine.DefaultEngine.rs, f:engine.DefaultEngine.first, f:engine.DefaultEngine.dbg, f:engine.DefaultEngine.regexCount, f:render.Sizer.outputSize, count(extcalls), count(codegets), count(written), count(dbputs), count(dbgets), count(stfault)
 //@   ensures @ready result1 == nil && result0 ==> engOk(en) && en.initd
 //@   ensures @again old(en.initd) && result1 == nil ==> result0 && sameEngine(en)
 //@   ensures[C08] @lockstep result1 == nil ==> vm.lockstep(en.vm)
@@ -239,7 +260,7 @@ package engine
 //@   callsite (*state.State).SetInput assume @inputbuf !sameBacking(arg1, en.st.Flags)
 //@   requires en != nil && en.rs != nil && (en.initd ==> engOk(en)) && (!en.initd ==> !en.execd)
 //@   requires[C08] en.initd ==> vm.lockstep(en.vm) && !en.exiting
-//@   modifies everything except f:engine.Config., f:engine.DefaultEngine.rs, f:engine.DefaultEngine.first, f:engine.DefaultEngine.dbg, f:engine.DefaultEngine.regexCount, f:state.State.BitSize, f:state.State.Flags, f:render.Sizer.outputSize, count(extcalls), count(codegets), count(written), count(rejected)
+//@   modifies everything except f:engine.Config., f:engine.DefaultEngine.rs, f:engine.DefaultEngine.first, f:engine.DefaultEngine.dbg, f:engine.DefaultEngine.regexCount, f:render.Sizer.outputSize, count(extcalls), count(codegets), count(written), count(rejected), count(dbputs), count(dbgets), count(stfault)
 //@   ensures[C17] @format old(idle(en)) && count(rejected) != old(count(rejected)) ==> result1 != nil && sessionKept(en)
 //@   ensures[C17] @length old(idle(en)) && len(input) > 255 ==> result1 != nil && sessionKept(en)
 //@   ensures[C17] @firstlength !old(en.initd) && len(input) > 255 ==> result1 != nil && count(extcalls) == old(count(extcalls))
